@@ -7,7 +7,7 @@
 //!
 //! Every payload P derived from a seed O (below) is pushed through the real `prepare`. The oracle is written from the
 //! statement, using the typed model only to name the *content* of each hashed part (its canonical encoding):
-//!   (a) canonical: if P prepares and decodes as the typed model, re-encoding must reproduce P byte for byte;
+//!   (a) canonical: if P prepares it must decode as the typed model, and re-encoding must reproduce P byte for byte;
 //!   (b) per hashed part present in O and P (intent / signed intent / notarized; transaction intent / each subintent;
 //!       ledger / inner): content equal <=> hash equal ("a function of the content only" and "changing any field of a
 //!       hashed part changes the corresponding hash"); in particular P != O  =>  top-level hash differs;
@@ -16,7 +16,8 @@
 //!       the values at the limit must prepare).
 //! Derived payloads: (1) O itself, re-prepared, re-encoded, and prepared from the typed model; (2) structural: O is
 //! decoded to a ManifestValue tree and EVERY node gets every local perturbation (ints +-1, bool flip, string
-//! append/drop/change, enum discriminator +-1, add/remove a field / element / entry, custom values altered) and is
+//! append/drop/change, enum discriminator +-1, add/remove a field / element / entry, EVERY array element / map entry
+//! duplicated in place and appended as a copy, custom values altered) and is
 //! re-encoded; (3) byte level: every single-byte substitution (all 255 values at every offset), every deletion,
 //! duplication, truncation, and all 256 appended bytes; thorough: additionally every substitution of two adjacent bytes
 //! (255 x 255 per offset) on six of the seeds.
@@ -330,7 +331,14 @@ fn check_payload(seed: &Seed, orig: &Analysis, p: &[u8], how: &str, family: &str
             l.violation(format!("{family}:accepted-non-canonical-payload"), format!("{how}: prepares, decodes, but re-encodes to different bytes"), case());
             return;
         }
-        None => l.info(&format!("{family}:prepared-but-typed-decode-fails")),
+        None => {
+            l.violation(
+                format!("{family}:accepted-but-not-decodable-as-the-typed-model"),
+                format!("{how}: the payload prepares (gets identifiers) but the typed model's decoder rejects it, so it cannot be the canonical encoding of any transaction"),
+                case(),
+            );
+            return;
+        }
         _ => {}
     }
     // (b) top level: different canonical bytes => different identifier
@@ -514,6 +522,17 @@ fn perturb_local(v: &mut ManifestValue, k: usize) -> Option<String> {
                 elements.swap(0, 1);
                 Some("swap-first-two-elements".into())
             }
+            k if k >= 3 && (k - 3) / 2 < elements.len() => {
+                let i = (k - 3) / 2;
+                let e = elements[i].clone();
+                if (k - 3) % 2 == 0 {
+                    elements.insert(i + 1, e);
+                    Some(format!("duplicate-element[{i}]-in-place"))
+                } else {
+                    elements.push(e);
+                    Some(format!("append-copy-of-element[{i}]"))
+                }
+            }
             _ => None,
         },
         ManifestValue::Map { entries, .. } => match k {
@@ -524,6 +543,17 @@ fn perturb_local(v: &mut ManifestValue, k: usize) -> Option<String> {
             1 if entries.len() >= 2 => {
                 entries.swap(0, 1);
                 Some("swap-first-two-entries".into())
+            }
+            k if k >= 2 && (k - 2) / 2 < entries.len() => {
+                let i = (k - 2) / 2;
+                let e = entries[i].clone();
+                if (k - 2) % 2 == 0 {
+                    entries.insert(i + 1, e);
+                    Some(format!("duplicate-entry[{i}]-in-place"))
+                } else {
+                    entries.push(e);
+                    Some(format!("append-copy-of-entry[{i}]"))
+                }
             }
             _ => None,
         },
@@ -577,7 +607,14 @@ fn perturb_local(v: &mut ManifestValue, k: usize) -> Option<String> {
     }
 }
 
-const MAX_LOCAL: usize = 4;
+/// upper bound of the local perturbation indices of a node (arrays / maps: + 2 per element / entry)
+fn local_count(v: &ManifestValue) -> usize {
+    match v {
+        ManifestValue::Array { elements, .. } => 3 + 2 * elements.len(),
+        ManifestValue::Map { entries, .. } => 2 + 2 * entries.len(),
+        _ => 4,
+    }
+}
 
 fn collect_paths(v: &ManifestValue, cur: &mut Vec<usize>, out: &mut Vec<Vec<usize>>) {
     out.push(cur.clone());
@@ -691,7 +728,11 @@ pub fn run(ctx: Ctx) -> ! {
     let tree_cases = AtomicU64::new(0);
     par_range(&ctx, tree_jobs.len() as u64, 64, |j, l| {
         let (si, path) = &tree_jobs[j as usize];
-        for k in 0..MAX_LOCAL {
+        let mut probe = &trees[*si];
+        for i in path {
+            probe = child_ref(probe, *i);
+        }
+        for k in 0..local_count(probe) {
             let mut t = trees[*si].clone();
             let mut node = &mut t;
             for i in path {
@@ -903,7 +944,7 @@ pub fn run(ctx: Ctx) -> ! {
         &[
             "blake2b is collision free on the explored payloads",
             "the content of a hashed part is named by the canonical encoding of its typed model (typed PartialEq is not used: IndexMap equality ignores order)",
-            "payloads that prepare but do not decode as the typed model are only counted (no content to compare), except for the top-level rule: different bytes => different notarized / ledger hash",
+            "a payload that prepares must also decode as the typed model (canonical form); this never fails on the unchanged tree",
             "signed partial transactions have no hash of their own (only subintent hashes); mutations of their signature lists are not covered by any hash, by design of the model",
         ],
     )
